@@ -1,11 +1,13 @@
 SPECIFICATION Spec
 CONSTANTS
  Configs <- MCConfigs
+ BigConfigs <- MCBigConfigs
 INVARIANT Partition
 INVARIANT ChunkShape
 INVARIANT BoxIsChunk
 INVARIANT SamplerIsChunk
 INVARIANT NoHoles
+INVARIANT GridByAxes
 INVARIANT SeamsCovered
 INVARIANT SeamIsLocalTie
 CHECK_DEADLOCK FALSE
